@@ -167,6 +167,11 @@ Definition obj_shape_ok (o : obj) : bool :=
 Definition wf_kindsb (h : heap) : bool :=
   forallb (fun ao => refs_ok h (obj_refs (snd ao)) && slices_ok h (obj_islices (snd ao)) && obj_shape_ok (snd ao)) h.
 
+(* propositional form (per binding that hget can see) *)
+Definition wf_kinds (h : heap) : Prop :=
+  forall a o, hget h a = Some o ->
+    refs_ok h (obj_refs o) = true /\ slices_ok h (obj_islices o) = true /\ obj_shape_ok o = true.
+
 Definition root_kindsb (h : heap) (v : hv) : bool :=
   refs_ok h (refs v) && slices_ok h (inline_slices v) && shape_ok v.
 
